@@ -99,18 +99,25 @@ impl HandshakeStateMachine {
         self.negotiated_flags
     }
 
-    pub fn begin_connect(&mut self) -> Result<()> {
-        if self.state != ConnectionState::Disconnected {
+    /// Each handshake step is only valid in the state the previous step left.
+    fn expect_state(&self, expected: ConnectionState, to: ConnectionState) -> Result<()> {
+        if self.state != expected {
             return Err(Error::InvalidStateTransition {
                 from: self.state,
-                to: ConnectionState::Connecting,
+                to,
             });
         }
+        Ok(())
+    }
+
+    pub fn begin_connect(&mut self) -> Result<()> {
+        self.expect_state(ConnectionState::Disconnected, ConnectionState::Connecting)?;
         self.state = ConnectionState::Connecting;
         Ok(())
     }
 
     pub fn prepare_send_name(&mut self) -> Result<Vec<u8>> {
+        self.expect_state(ConnectionState::Connecting, ConnectionState::SendingName)?;
         self.state = ConnectionState::SendingName;
         let send_name = SendName::new(self.flags, self.creation.0, &self.local_node_name);
         let data = send_name.encode_old()?;
@@ -119,16 +126,25 @@ impl HandshakeStateMachine {
     }
 
     pub fn handle_status(&mut self, data: &[u8]) -> Result<()> {
+        self.expect_state(
+            ConnectionState::AwaitingStatus,
+            ConnectionState::AwaitingChallenge,
+        )?;
         let status_msg = StatusMessage::decode(data)?;
         if !status_msg.status.is_ok() {
             return Err(Error::ConnectionRefused {
                 reason: format!("Status: {}", status_msg.status),
             });
         }
+        self.state = ConnectionState::AwaitingChallenge;
         Ok(())
     }
 
     pub fn prepare_complement(&mut self) -> Result<Vec<u8>> {
+        self.expect_state(
+            ConnectionState::AwaitingChallenge,
+            ConnectionState::AwaitingChallenge,
+        )?;
         let flags_u64 = self.flags.as_u64();
         let high_flags = (flags_u64 >> 32) as u32;
 
@@ -141,7 +157,10 @@ impl HandshakeStateMachine {
     }
 
     pub fn handle_challenge(&mut self, data: &[u8]) -> Result<()> {
-        self.state = ConnectionState::AwaitingChallenge;
+        self.expect_state(
+            ConnectionState::AwaitingChallenge,
+            ConnectionState::SendingChallengeReply,
+        )?;
         let challenge = Challenge::decode(data)?;
 
         self.negotiated_flags = Some(DistributionFlags::new(
@@ -150,11 +169,15 @@ impl HandshakeStateMachine {
 
         self.their_challenge = Some(challenge.challenge);
         self.our_challenge = Some(digest::generate_challenge());
+        self.state = ConnectionState::SendingChallengeReply;
         Ok(())
     }
 
     pub fn prepare_challenge_reply(&mut self) -> Result<Vec<u8>> {
-        self.state = ConnectionState::SendingChallengeReply;
+        self.expect_state(
+            ConnectionState::SendingChallengeReply,
+            ConnectionState::AwaitingChallengeAck,
+        )?;
 
         let our_challenge = self
             .our_challenge
@@ -171,6 +194,10 @@ impl HandshakeStateMachine {
     }
 
     pub fn handle_challenge_ack(&mut self, data: &[u8]) -> Result<()> {
+        self.expect_state(
+            ConnectionState::AwaitingChallengeAck,
+            ConnectionState::Connected,
+        )?;
         let ack = ChallengeAck::decode(data)?;
 
         let our_challenge = self
